@@ -72,8 +72,107 @@ fn raw_programs(em: &mut Emitter, rng: &mut Rng, thorough: bool) -> u64 {
     n
 }
 
+/// Random trees of JOIN / SPLIT / LOOP over NOOP spans, control blocks nested directly in each other
+/// (LOOP in LOOP, SPLIT in LOOP, LOOP in SPLIT, ...). Conditions are read from a random bit script on
+/// the stack, so loops are entered, repeated and skipped in every combination and everything
+/// terminates (zeros are shifted in at the bottom).
+pub fn nested_programs(rng: &mut Rng, count: usize) -> Vec<(Program, Vec<u64>)> {
+    fn gen(rng: &mut Rng, depth: u32) -> CodeBlock {
+        let leaf = |rng: &mut Rng| CodeBlock::new_span(vec![Operation::Noop; 1 + rng.below(2) as usize]);
+        if depth == 0 {
+            return leaf(rng);
+        }
+        match rng.below(8) {
+            0 => leaf(rng),
+            1 | 2 => CodeBlock::new_join([gen(rng, depth - 1), gen(rng, depth - 1)]),
+            3 | 4 => CodeBlock::new_split(gen(rng, depth - 1), gen(rng, depth - 1)),
+            _ => CodeBlock::new_loop(gen(rng, depth - 1)),
+        }
+    }
+    let mut out = Vec::new();
+    for i in 0..count {
+        let depth = 2 + (i % 3) as u32;
+        // the first programs are the directly nested loops themselves
+        let root = match i {
+            0 => CodeBlock::new_loop(CodeBlock::new_loop(CodeBlock::new_span(vec![Operation::Noop]))),
+            1 => CodeBlock::new_loop(CodeBlock::new_loop(CodeBlock::new_loop(CodeBlock::new_span(vec![Operation::Noop])))),
+            2 => CodeBlock::new_loop(CodeBlock::new_split(CodeBlock::new_loop(CodeBlock::new_span(vec![Operation::Noop])), CodeBlock::new_span(vec![Operation::Noop]))),
+            _ => CodeBlock::new_loop(gen(rng, depth)),
+        };
+        // bit script, biased towards 1 at the start so that the outer loops are entered
+        let bits: Vec<u64> = (0..40).map(|j| if j < 2 + (i % 3) { 1 } else if rng.below(5) < 2 { 1 } else { 0 }).collect();
+        out.push((Program::new(root), bits));
+    }
+    out
+}
+
+/// Independent walk over the decoder rows of a real trace: every END row must carry the flags of the
+/// block it closes — `is_loop_body` iff the parent block is a LOOP, `is_loop` iff the block is a LOOP
+/// whose body was entered — and starts / ends must be well bracketed.
+fn check_end_flags(em: &mut Emitter, p: &Program, st: &[u64], what: &str) -> u64 {
+    use air::trace::{DECODER_TRACE_OFFSET, STACK_TRACE_OFFSET};
+    let (trace, inputs) = match crate::airmon::execute_trace(p, st, &[]) {
+        Ok(x) => x,
+        Err(_) => return 0,
+    };
+    let ctx = crate::airmon::AirCtx::new(&trace, inputs);
+    let n = trace.trace_len_summary().main_trace_len().min(ctx.last_step);
+    // (opcode of the start row, loop entered)
+    let mut stack: Vec<(u8, bool)> = Vec::new();
+    let mut ends = 0u64;
+    for step in 0..n {
+        let opc = ctx.opcode_at(step);
+        let row = &ctx.rows[step];
+        match opc {
+            87 | 84 | 86 | 108 | 104 | 88 => stack.push((opc, false)),
+            85 => stack.push((opc, row[STACK_TRACE_OFFSET] == Felt::new(1))),
+            112 => {
+                ends += 1;
+                let (kind, entered) = match stack.pop() {
+                    Some(x) => x,
+                    None => {
+                        em.oracle_failures.push(format!("C13 END without an open block at row {} ({})", step, what));
+                        return ends;
+                    }
+                };
+                let parent_is_loop = stack.last().map(|(k, _)| *k == 85).unwrap_or(false);
+                let is_loop_body = row[DECODER_TRACE_OFFSET + 8 + 4] == Felt::new(1);
+                let is_loop = row[DECODER_TRACE_OFFSET + 8 + 5] == Felt::new(1);
+                if is_loop_body != parent_is_loop {
+                    em.oracle_failures.push(format!(
+                        "C13 END row {} closes a block whose parent {} a LOOP but carries is_loop_body = {} ({}, stack {:?})",
+                        step, if parent_is_loop { "is" } else { "is not" }, is_loop_body as u8, what, &st[..st.len().min(12)]
+                    ));
+                    return ends;
+                }
+                if is_loop != (kind == 85 && entered) {
+                    em.oracle_failures.push(format!(
+                        "C13 END row {} closes a {} block (entered: {}) but carries is_loop = {} ({}, stack {:?})",
+                        step, kind, entered, is_loop as u8, what, &st[..st.len().min(12)]
+                    ));
+                    return ends;
+                }
+            }
+            _ => {}
+        }
+    }
+    if !stack.is_empty() {
+        em.oracle_failures.push(format!("C13 {} blocks still open at the end of the program ({})", stack.len(), what));
+    }
+    ends
+}
+
 pub fn generate(em: &mut Emitter, seed: u64, thorough: bool) {
     let mut rng = Rng::new(seed ^ 0xC13);
+    // directly nested control blocks: op stream against the model, END-row flags against an independent walk
+    let mut ends = 0u64;
+    let nested = nested_programs(&mut rng, if thorough { 600 } else { 80 });
+    for (i, (p, bits)) in nested.iter().enumerate() {
+        exec_case(em, p, bits, &[], None, "ops,sys");
+        ends += check_end_flags(em, p, bits, &format!("nested control blocks #{}", i));
+    }
+    em.stat("nested_control_programs", nested.len());
+    em.stat("end_rows_checked", ends);
     let n = if thorough { 6000 } else { 400 };
     let (ok, err, asm) = general(em, &mut rng, n, "ops,sys,mem");
     em.stat("programs_ok", ok);
